@@ -531,8 +531,13 @@ impl Fb<'_, '_> {
                 let test = self.fresh("test");
                 let other = self.local();
                 self.emit(ins("add", vec![r(other), r(other), r(cnt)]));
-                let n = self.ch.int_in(0, 3);
-                self.emit(ins("li", vec![r(cnt), i(n)]));
+                if self.ch.chance(1, 3) {
+                    // a bound that the analysis cannot know (0..3, taken from another local)
+                    self.emit(ins("andi", vec![r(cnt), r(other), i(3)]));
+                } else {
+                    let n = self.ch.int_in(0, 3);
+                    self.emit(ins("li", vec![r(cnt), i(n)]));
+                }
                 self.emit(ins("j", vec![Opd::L(test.clone())]));
                 self.emit(Line::Label(body.clone()));
                 self.depth += 1;
